@@ -419,6 +419,45 @@ def LossScalesPos : Fn ℝ → Prop
   | .loss _ _ f s => 0 < s ∧ LossScalesPos f
   | .sqL2 _ _ _ s => 0 < s
 
+theorem sq2_nonneg (a b : List ℝ) : 0 ≤ sq2 a b := by
+  unfold sq2
+  apply List.sum_nonneg
+  intro x hx
+  obtain ⟨i, _, rfl⟩ := List.getElem_of_mem hx
+  simp only [List.getElem_zipWith]
+  positivity
+
+theorem sq2_self (a : List ℝ) : sq2 a a = 0 := by
+  unfold sq2
+  induction a with
+  | nil => rfl
+  | cons x xs ih => simp [ih]
+
+theorem Arg.dist2_nonneg (a b : Arg ℝ) : 0 ≤ a.dist2 b := by
+  cases a <;> cases b <;> simp only [Arg.dist2, le_refl]
+  · exact sq2_nonneg _ _
+  · apply List.sum_nonneg
+    intro x hx
+    obtain ⟨i, _, rfl⟩ := List.getElem_of_mem hx
+    simp only [List.getElem_zipWith]
+    exact sq2_nonneg _ _
+
+theorem Arg.dist2_self (a : Arg ℝ) : a.dist2 a = 0 := by
+  cases a with
+  | arr v => exact sq2_self v
+  | blk bs =>
+    simp only [Arg.dist2]
+    induction bs with
+    | nil => rfl
+    | cons b bs ih => simp [sq2_self, ih]
+
+/-- the zero functional with the identity as prox (what `ZeroFunctional` is) satisfies `LeafSound` -/
+theorem isProxA_zero (lam : ℝ) (v : Arg ℝ) : IsProxA (fun _ => True) (fun _ => 0) lam v v := by
+  refine ⟨Arg.shapeEq_refl v, trivial, fun x _ _ => ?_⟩
+  rw [Arg.dist2_self]
+  have := Arg.dist2_nonneg x v
+  linarith
+
 /-- **soundness for all nestings** -/
 theorem tree_sound (E : Env ℝ) (S : LeafSem) (hS : LeafSound E S) :
     ∀ (t : Fn ℝ) (v p : Arg ℝ) {lam : ℝ}, 0 < lam → hasProx E t = true → Generic t → LossScalesPos t →
